@@ -210,6 +210,7 @@ pub fn op_kind(op: &Op) -> &'static str {
             EnvOp::Donate(..) => "env.donate",
             EnvOp::NoRedel(..) => "env.noredel",
             EnvOp::NoUndel(..) => "env.noundel",
+            EnvOp::Inactive(..) => "env.inactive",
             EnvOp::Migrate(..) => "env.migrate",
             EnvOp::Oracle(..) => "env.oracle",
             EnvOp::Swap(..) => "env.swap",
